@@ -25,7 +25,7 @@ exec_c20(const vcase *vc)
 	int  mode = (int) vop_arg(&vc->ops[1], 0, 0);
 	long n    = vop_arg(&vc->ops[1], 1, 4);
 	long salt = vop_arg(&vc->ops[1], 2, 1);
-	if (n < 1 || n > 400)
+	if (mode != 3 && (n < 1 || n > 400))
 		n = 4;
 	// baseline
 	cfg.fail_at = 0;
@@ -45,9 +45,19 @@ exec_c20(const vcase *vc)
 	if (total < 1)
 		return 0;
 	vr_count(1, total);
-	for (long j = 0; j < n; j++) {
+	if (mode == 3) {
+		// exhaustive stripe: every k = salt+1, salt+1+n, ... <= total (n workers share one program)
+		if (n < 1 || n > 64 || salt < 0 || salt >= n)
+			return 0;
+		vr_tag("exhaustive_stripe");
+	}
+	long nruns = mode == 3 ? (total - salt + n - 1) / n : n;
+	for (long j = 0; j < nruns; j++) {
 		long k;
-		if (mode == 0)
+		if (mode == 3) {
+			k = salt + 1 + j * n;
+			vr_count(3, 1);
+		} else if (mode == 0)
 			k = 1 + (long) (((unsigned long) salt * 2654435761ul + (unsigned long) j * (unsigned long) (total / n + 1)) % (unsigned long) total);
 		else
 			k = 1 + (long) (((unsigned long) salt + (unsigned long) j) % (unsigned long) total);
@@ -122,12 +132,66 @@ gen_c20()
 	return t.str();
 }
 
+// the finite sub-space that is enumerated: the bare scenario templates (no insertions, blocking send / receive forms) over
+// inproc / ipc / tcp, EVERY allocation index of each, the indices striped over the workers
+std::vector<std::string>
+enum_c20(int worker, int nworkers, bool thorough)
+{
+	std::vector<std::string> out;
+	// single operations inserted at every position of the template (thorough tier)
+	static const char *kIns[] = {"", "setopt 0 0 3 0 1", "setopt 0 1 3 0 0", "close 0 0", "close 1 0", "pipeclose 0 0", "pipeclose 1 0", "epclose 0 0", "epclose 1 0", "stats", "ctxopen 0", "ctxopen 1",
+	    "cancel 0 0", "send 0 1 5000 0", "recv 1 1 0 0", "sleep 5", "open 3 0", "subscribe 0 1 0"};
+	int nins = thorough ? (int) (sizeof kIns / sizeof kIns[0]) : 1;
+	for (int t = 0; t < api::kNTemplates; t++)
+		for (int T = 0; T < 3; T++)
+			for (int S = 0; S < 3; S++)
+				for (int F = 0; F < 2; F++) {
+					std::string              tp = api::kTemplates[t], w;
+					std::vector<std::string> lines;
+					for (auto &c : tp)
+						if (c == '|')
+							c = '\n';
+					bool               usesT = false, usesS = false, usesF = false;
+					std::istringstream is(tp);
+					std::string        line;
+					while (std::getline(is, line)) {
+						std::istringstream ls(line);
+						std::string        l;
+						while (ls >> w) {
+							usesT = usesT || w == "T";
+							usesS = usesS || w == "S";
+							usesF = usesF || w == "F";
+							l += (l.empty() ? "" : " ") + (w == "T" ? std::to_string(T) : w == "F" ? std::to_string(F) : w == "S" ? std::to_string(S) : w);
+						}
+						lines.push_back(l);
+					}
+					if ((!usesT && T) || (!usesS && S) || (!usesF && F))
+						continue; // the template does not depend on that parameter: one instance is enough
+					for (int ins = 0; ins < nins; ins++)
+						for (size_t pos = 0; pos <= (ins ? lines.size() : 0); pos++) {
+							if (ins && (S || F))
+								continue; // insertions: blocking forms, plain dial only
+							std::ostringstream o;
+							o << "cfg " << (1000 + t * 3 + T) << " 0 10 0 400 0\nfault 3 " << nworkers << " " << worker << "\n# template " << t << "\n";
+							for (size_t i = 0; i <= lines.size(); i++) {
+								if (ins && i == pos)
+									o << kIns[ins] << "\n";
+								if (i < lines.size())
+									o << lines[i] << "\n";
+							}
+							out.push_back(o.str());
+						}
+				}
+	return out;
+}
+
 } // namespace
 
 int
 main(int argc, char **argv)
 {
 	pbt::PropSpec sp;
+	sp.enumerate = enum_c20;
 	sp.id         = "C20";
 	sp.gen        = gen_c20;
 	sp.exec       = exec_c20;
